@@ -647,6 +647,95 @@ pub fn run_violation(prog: &Vec<Vec<Step>>, hist: &[Act], expect: &str, prop: &'
   Ok(())
 }
 
+// ---- C19: builds after a *diagnosed* abort -------------------------------------------------------------------------------
+/// programs in which a resource value decides whether the violation exists: the first build aborts with the diagnosis, the value is
+/// then changed so that a from-scratch build succeeds, and every later top-down build on the SAME instance must return what a
+/// from-scratch build of the then-current state returns (in every order of roots, with and without the writer's own input changing)
+pub fn recovery_cases() -> Vec<(&'static str, Vec<Vec<Step>>, Vec<Act>)> {
+  use Step::*;
+  let shapes: Vec<(&'static str, Vec<Vec<Step>>, u8, u8)> = vec![
+    // (name, program, value of resource 0 with the violation, value without)
+    ("hidden read, then the reader requires the writer", vec![vec![Require(1, 1), Require(2, 1)], vec![Read(1, 0), Write(2, 1)], vec![Read(0, 1), IfOdd(vec![Require(1, 1)], vec![]), Read(2, 0)]], 0, 1),
+    ("hidden write after a read, then the reader requires the writer", vec![vec![Require(2, 1), Require(1, 1)], vec![Read(1, 0), Write(2, 1)], vec![Read(0, 1), IfOdd(vec![Require(1, 1)], vec![]), Read(2, 0)]], 0, 1),
+    ("hidden declared write after a read, then the reader requires the writer", vec![vec![Require(2, 1), Require(1, 1)], vec![Read(1, 0), WrittenTo(2, 1)], vec![Read(0, 1), IfOdd(vec![Require(1, 1)], vec![]), Read(2, 0)]], 0, 1),
+    ("overlapping write, then the second writer stops writing", vec![vec![Require(1, 1), Require(2, 1)], vec![Read(1, 0), Write(2, 1)], vec![Read(0, 1), IfOdd(vec![], vec![Write(2, 2)])]], 0, 1),
+    ("overlapping write by the first-built task, then it stops writing", vec![vec![Require(2, 1), Require(1, 1)], vec![Read(1, 0), Write(2, 1)], vec![Read(0, 1), IfOdd(vec![], vec![Write(2, 2)])]], 0, 1),
+    ("cycle of three, then the closing require disappears", vec![vec![Require(1, 0)], vec![Read(1, 0), Require(2, 0)], vec![Read(0, 0), IfOdd(vec![Require(0, 0)], vec![])]], 1, 0),
+  ];
+  let mut v = vec![];
+  for (name, prog, bad, good) in shapes {
+    for touch_writer in [false, true] {
+      for order in 0..27u8 {
+        let mut h = vec![Act::Set(0, bad), Act::Set(1, 0), Act::TopDown(0), Act::Set(0, good)];
+        if touch_writer { h.push(Act::Set(1, 1)); }
+        for r in [order % 3, (order / 3) % 3, order / 9] { h.push(Act::TopDown(r)); }
+        v.push((name, prog.clone(), h));
+      }
+    }
+  }
+  v
+}
+/// The reference for "what may still be diagnosed" is a TWIN instance that never ran the aborted build but ran, one by one, the
+/// executions that COMPLETED inside it: a conflict with what a completed execution recorded still exists on the instance until that
+/// task is built again (the same happens without any abort in the history), so only what the instance does beyond its twin is
+/// attributed to the abort.
+pub fn run_recovery(prog: &Vec<Vec<Step>>, hist: &[Act]) -> Result<usize, Fail> {
+  PROG.with(|p| *p.borrow_mut() = prog.clone()); FAIL_CHECK.with(|f| f.set(false)); PANIC_IN.with(|p| p.set(None));
+  let diagnosed = |m: &str| m.starts_with("Hidden dependency") || m.starts_with("Overlapping write") || m.starts_with("Cyclic task dependency");
+  let build = |p: &mut P, root: u8| -> Result<u32, String> {
+    clear_logs(p); sync_shadow(p);
+    let r = catch_unwind(AssertUnwindSafe(|| p.new_session().require(&T(root))));
+    ACTIVE.with(|a| a.borrow_mut().clear());
+    r.map_err(panic_msg)
+  };
+  let mut pie = new_pie(); let mut twin = new_pie();
+  let mut aborted = 0; let mut recovered = 0;
+  for a in hist {
+    if let Act::Set(r, v) = a { for p in [&mut pie, &mut twin] { p.resource_state_mut::<Res>().get_global_map_mut().insert(Res(*r), *v); } }
+    if let Act::TopDown(root) = a {
+      let before = map_of(&mut pie);
+      if map_of(&mut twin) != before { panic!("harness: the twin instance holds other resources {:?} than the instance {:?}", map_of(&mut twin), before); }
+      let fresh = fresh_build(&before, *root);
+      let r = build(&mut pie, *root);
+      match r {
+        Err(m) => {
+          if m.starts_with("BUG") || !diagnosed(&m) { fail!("C19", "C19.bounded.no_internal_invariant_error", "require(T({})) failed with: {}", root, m); }
+          if aborted == 0 {
+            // the first abort: the twin runs what completed in it, in order of completion
+            if fresh.is_ok() { panic!("harness: the build that should abort succeeds from scratch"); }
+            let done: Vec<u8> = pie.tracker().0.ev.iter().filter(|e| !e.start && e.kind == "execute").map(|e| e.subject.trim_start_matches("T(").trim_end_matches(')').parse().unwrap()).collect();
+            for t in done { if let Err(m) = build(&mut twin, t) { panic!("harness: the twin could not build completed task {}: {}", t, m); } }
+            // (a declared write -- create_writer, then written_to -- has modified the resource before it is diagnosed)
+            let now = map_of(&mut pie); set_map(&mut twin, &now);
+            aborted += 1;
+          } else {
+            let tw = build(&mut twin, *root);
+            if fresh.is_ok() && tw.is_ok() {
+              fail!("C19", "C19.bounded.after_a_diagnosed_abort_no_abort_for_a_violation_that_is_gone", "require(T({})) aborts with `{}`; a from-scratch build of the current state succeeds, and so does an instance that only ran the executions completed in the aborted build", root, m);
+            }
+            if tw.is_ok() { panic!("harness: from-scratch aborts, the twin does not"); }
+          }
+        }
+        Ok(out) => {
+          let tw = build(&mut twin, *root);
+          if let Ok((fout, _, fmap)) = fresh {
+            if aborted > 0 { recovered += 1; }
+            if out != fout { fail!("C19", "C19.bounded.after_a_diagnosed_abort_builds_return_from_scratch_results", "require(T({})) returned {} on the instance that had aborted, a from-scratch build returns {}", root, out, fout); }
+            let after = map_of(&mut pie);
+            if after != fmap { fail!("C19", "C19.bounded.after_a_diagnosed_abort_builds_return_from_scratch_results", "resources after require(T({})) {:?} differ from the from-scratch build {:?}", root, after, fmap); }
+          }
+          if tw.is_err() { // the twin still holds a conflicting record the instance has already replaced: bring it up to date
+            twin = new_pie(); set_map(&mut twin, &map_of(&mut pie));
+            let _ = build(&mut twin, *root);
+          }
+        }
+      }
+    }
+  }
+  if aborted == 0 { panic!("harness: a recovery case without an abort"); }
+  Ok(recovered)
+}
+
 // ---- C16: the same history on fresh instances gives the same event stream ---------------------------------------------------
 /// a requirer that starts requiring `Sum` (which requires `n` leaves) only after resource 0 changed, and is re-executed first in a
 /// bottom-up build in which all leaves are scheduled: the order in which the leaves run must not depend on the instance
